@@ -146,6 +146,9 @@ func checkC16(c *Ctx) {
 	c.Floor("PATH", 5)
 	c.Floor("LENGTH", 12)
 	c.Floor("SHAPE", 4)
+	c.Decides("FRESH-FRONTIER: in the level-by-level walks of package tree (depths of an unrooted tree) the slice handed over as the next level is a new slice in every round, never one truncated buffer shared with the level being read")
+	c.freshFrontier("FRESH-FRONTIER", c.AllFuncs("tree"), "indexes ready for use")
+	c.Floor("FRESH-FRONTIER", 1)
 }
 
 var buildCalls = map[string]bool{"NewNode": true, "ConnectNodes": true, "GraftTipOnEdge": true, "RerootFirst": true, "UnRoot": true, "SetRoot": true}
